@@ -133,3 +133,29 @@ PROPS["C04"] = dict(
         "a leaver keeps running until the end of the run (a node that stops responding is outside this property)",
     ],
 )
+
+PROPS["C03"] = dict(
+    title="A crashed member is removed by every live node within a bounded time",
+    pkg="./props/c03",
+    level="fault_enumeration",
+    rule=("(a) crash detection: 3-8 (thorough 3-14) real nodes with generated configuration; nodes start/join at generated instants; 1..n/2 victims crash "
+          "(Shutdown + address swallowing packets; dials refused or hanging) at generated instants incl. during formation; loss 0-15%, duplication, latency "
+          "up to 20ms among survivors; in own-evidence mode every suspect/dead message naming a victim is removed from the wire and push/pull is off, so each "
+          "survivor must detect alone. Oracle: every join event for a victim at a survivor is followed by a leave event no later than max(crash, join) + B, "
+          "B = (2(n-1)+2)(A+1)P + D + SuspicionMaxTimeoutMult*SuspicionMult*max(1,log10 n)*P re-derived from the configuration; no survivor lists a victim at "
+          "the end. (b) probe schedule on fault-free runs: no node probes itself or a non-member, and within every stretch of stable membership its ping "
+          "sequence splits into passes visiting every peer exactly once. non-trivial (a) = >=1 crash, >=2 survivors, >=2 (survivor, victim) pairs checked; "
+          "(b) = at least 2n complete passes observed; distinct = distinct plans"),
+    tests=[
+        dict(name="crash", run="^TestCrashDetection$",
+             quick=dict(shards=12, checks=25, timeout=900),
+             thorough=dict(shards=14, checks=300, timeout=3400)),
+        dict(name="sched", run="^TestProbeSchedule$",
+             quick=dict(shards=4, checks=100, timeout=900),
+             thorough=dict(shards=2, checks=1500, timeout=3400)),
+    ],
+    assumptions=CLUSTER_ASSUMPTIONS + [
+        "victims do not change metadata shortly before crashing (the bound's start point is the crash)",
+        "the run ends adaptively once no survivor lists a victim or holds it alive/suspect; pairs not yet due at the end are counted as not-due, not as passes",
+    ],
+)
